@@ -23,7 +23,7 @@ def hostile_alphabet(box):
     return ["..", ".", "", outside, outside + "/x", "a/../../b", "../" * 3 + "up", "../../..",
             "../" * 12 + "deep", "ok", "sub", "a/b", "/", "..//..", "./../x", "ok/..", "…",
             "../dest2", "../dest.bak", "../destX/y", "../../y/dest", "//" + box.lstrip("/"),
-            "..", "../dest", "../dest", "../dest", "../dest", "..\\..\\created", "x\\..\\..\\..\\victim", "..\\byname", "\\", "..\\",
+            "..", "../dest", "../dest", "../dest", "../dest", "../DEST", "../Dest/x", "../DEST", "..\\..\\created", "x\\..\\..\\..\\victim", "..\\byname", "\\", "..\\",
             # '..' in disguise (invisible / control characters) and an element too long to create
             ".\u202e.", ".\u200e.", "\u200b..", ".\x7f.", "..\n", "..\u200d", "x" * 300]
 
